@@ -25,7 +25,7 @@ ASSUMPTIONS = ['file names contain no newline, NUL or "/" and (list-file channel
                'commands are invoked in-process through click.testing.CliRunner']
 DEADLINE_S = {'quick': 240, 'thorough': 2400}
 DEFAULT_SPEC = (11, 'ATGAC')
-SPECS = [(5, 'AT'), (6, 'AC'), (7, 'ATG'), (11, 'ATGAC'), (8, 'TA'), (12, 'GA')]
+SPECS = [(5, 'AT'), (6, 'AC'), (7, 'ATG'), (11, 'ATGAC'), (8, 'TA'), (12, 'GA'), (17, 'AT'), (20, 'TA'), (32, 'AC'), (16, 'GA')]
 
 
 def budget(tier):
